@@ -15,10 +15,12 @@ pub fn rem_large(&self, mut words: Buffer) -> Buffer
     @*/
     // shift
     let carry = shift::shl_in_place(&mut words, self.shift);
-    /*@ let ghost w1 = words@; @*/
     words.push_resizing(carry);
     /*@ proof {
-        if carry != 0 { lemma_val_push(w1, carry); } else { assert((carry as int) * pw(w0.len() as int) == 0) by (nonlinear_arith) requires carry as int == 0; }
+        // (no annotation between the two statements above: they change together)
+        let w1 = if carry != 0 { words@.drop_last() } else { words@ };
+        if carry != 0 { assert(words@ =~= w1.push(carry)); lemma_val_push(w1, carry); }
+        else { assert((carry as int) * pw(w0.len() as int) == 0) by (nonlinear_arith) requires carry as int == 0; }
         assert(val(words@) == x);
         lemma_norm_half(self.normalized_divisor@, self.fast_div_top);
         lemma_valn_bound(words@, words@.len() as int);
